@@ -315,32 +315,64 @@ def _branch_tag(node, fn) -> str:
 # ------------------------------------------------------------------------------------------
 # C16 / Y1
 def rule_file_separator(ctx, rep: Report, rid="Y1"):
+    """The text handed to the parser is the files' texts with a line break after (or between) every one of them:
+    found by following the argument of Module.parseString back to the file list - an accumulation loop that appends
+    `<read text> + "\\n"`, or `"\\n".join(<texts>)`.  A concatenation that keeps only the line breaks the files happen to
+    contain (`"".join(lines)`, fileinput, itertools.chain) lets a file that ends without one run into the next."""
     ci, prog = mw(ctx)
     fn = prog.method("MatlabWrapper", "wrap")
-    loops = [l for l in walk_no_nested(fn) if isinstance(l, ast.For) and unparse(l.iter) == func_params(fn)[1]]
-    if len(loops) != 1:
-        raise AnalysisError("MatlabWrapper.wrap: loop over the file list not found")
-    accs = [a for a in ast.walk(loops[0]) if isinstance(a, ast.AugAssign) and isinstance(a.op, ast.Add)]
-    joined = [c for c in walk_no_nested(fn) if isinstance(c, ast.Call) and isinstance(c.func, ast.Attribute) and c.func.attr == "join"
-              and isinstance(c.func.value, ast.Constant)]
-    ok = False
-    detail = ""
-    if accs:
-        v = accs[0].value
-        # the separator is appended unconditionally:  <text> + "\n"  (or "\n" + <text>)
-        ok = isinstance(v, ast.BinOp) and isinstance(v.op, ast.Add) and any(
-            isinstance(x, ast.Constant) and isinstance(x.value, str) and "\n" in x.value for x in (v.left, v.right))
-        detail = f"accumulated as `{unparse(accs[0])}`"
-    elif joined:
-        ok = "\n" in joined[0].func.value.value
-        detail = f"joined with {joined[0].func.value.value!r}"
-    rep.add(rid, "MatlabWrapper.wrap:file contents are separated by a line break before parsing", ok,
-            f"{detail}: the text of one file runs straight into the next, so a first file ending in a `//` comment "
-            f"(or in the middle of a token) swallows / fuses with the next file's first declaration",
-            f"{ci.mod.rel}:{loops[0].lineno}")
+    files_p = func_params(fn)[1]
     parse = [c for c in walk_no_nested(fn) if isinstance(c, ast.Call) and unparse(c.func).endswith("Module.parseString")]
     rep.add(rid, "MatlabWrapper.wrap:the concatenation is parsed once", len(parse) == 1, f"{len(parse)} parse calls",
             f"{ci.mod.rel}:{fn.lineno}", nontrivial=False)
+    if not parse or not parse[0].args:
+        raise AnalysisError("MatlabWrapper.wrap: call of Module.parseString not found")
+    src = parse[0].args[0]
+    ok, detail, loc_line = False, "", fn.lineno
+
+    def has_nl(e) -> bool:
+        return isinstance(e, ast.Constant) and isinstance(e.value, str) and "\n" in e.value
+    if isinstance(src, ast.Name):
+        var = src.id
+        # (a) accumulation in a loop over the files
+        loops = [l for l in walk_no_nested(fn) if isinstance(l, ast.For) and files_p in {x.id for x in ast.walk(l.iter) if isinstance(x, ast.Name)}]
+        accs = [a_ for l in loops for a_ in ast.walk(l) if isinstance(a_, ast.AugAssign) and isinstance(a_.op, ast.Add)
+                and isinstance(a_.target, ast.Name) and a_.target.id == var]
+        joins = [j for st in walk_no_nested(fn) if isinstance(st, ast.Assign) and len(st.targets) == 1 and isinstance(st.targets[0], ast.Name)
+                 and st.targets[0].id == var for j in ast.walk(st.value)
+                 if isinstance(j, ast.Call) and isinstance(j.func, ast.Attribute) and j.func.attr == "join" and isinstance(j.func.value, ast.Constant)]
+        if accs:
+            v = accs[0].value
+            parts = []
+
+            def flat(x):
+                if isinstance(x, ast.BinOp) and isinstance(x.op, ast.Add):
+                    flat(x.left)
+                    flat(x.right)
+                else:
+                    parts.append(x)
+            flat(v)
+            sep_uncond = any(has_nl(x) for x in parts) and not guards_of(accs[0], fn, include_exits=False)
+            ok = sep_uncond
+            detail = f"accumulated as `{unparse(accs[0])}`"
+            loc_line = accs[0].lineno
+        elif joins:
+            j = joins[0]
+            ok = has_nl(j.func.value)
+            detail = f"joined with {unparse(j.func.value)} over `{unparse(j.args[0])[:50] if j.args else ''}`"
+            loc_line = j.lineno
+        else:
+            detail = f"`{var}` is not built by a loop over `{files_p}` or a join"
+    elif isinstance(src, ast.Call) and isinstance(src.func, ast.Attribute) and src.func.attr == "join":
+        ok = has_nl(src.func.value)
+        detail = f"joined with {unparse(src.func.value)}"
+        loc_line = src.lineno
+    else:
+        detail = f"parsed text is `{unparse(src)[:60]}`"
+    rep.add(rid, "MatlabWrapper.wrap:file contents are separated by a line break before parsing", ok,
+            f"{detail}: no line break is put between the files, so the text of one file runs straight into the next and a first file ending in a "
+            f"`//` comment (or in the middle of a token) swallows / fuses with the next file's first declaration",
+            f"{ci.mod.rel}:{loc_line}")
 
 
 # ==========================================================================================
